@@ -188,7 +188,6 @@ func TestC07ServerSyn(t *testing.T) {
 				_ = r.c.Send(gbnrun.Payload(1, 8))
 				time.Sleep(1500 * time.Millisecond)
 				r.c.Close()
-				r.c.VerifStopPongTicker()
 			}
 			hs := 0
 			if got {
